@@ -148,7 +148,10 @@ CLAIMED = {
              "bindings keep a historical root fully readable through the Layer-D reader (old_root_still_readable, with C03's "
              "getD_of_path); completeness invariant: a set/delete on a complete database never raises, computes the tree operation, "
              "preserves all bindings and leaves every hashed node of the new root stored (op_keeps_complete, under the per-operation "
-             "NoClobber predicate), and completeness of any root survives all later growth (complete_survives). Tie: exact db after every "
+             "NoClobber predicate), and completeness of any root survives all later growth (complete_survives); at history level: after ANY history the final "
+             "database is complete for every earlier version and the raw-level reader started at the root of version i returns "
+             "the contents of that moment for every key (history_complete_for_all_versions, history_old_roots_readable), no binding "
+             "of any intermediate database was removed or altered (history_preserves_every_binding). Tie: exact db after every "
              "step, every old root re-read through a fresh trie and at_root, reads via the Lean Layer-D reader on the model's own db.",
         technique="Lean 4 proof (invariants of the world executor, any fault position) + correspondence check with fault injection",
         design_ref="6/C04"),
@@ -308,7 +311,8 @@ CLAIMED = {
              "that exception (drop the entry, traverse from the root - cstepDR) never raises on a database complete for the current "
              "version (raw_step_with_retry), and the WHOLE raw-level walk over a database that changes between steps (crunDR) never "
              "raises, meets only pairs some version held, and has met every stable key once the fog is complete "
-             "(raw_walk_finds_stable_and_sound; when every prefix is taken from the fog no step is rejected: raw_walk_never_stuck; the premise SchedOk is what earlier_versions_consistent provides along executor "
+             "(raw_walk_finds_stable_and_sound; composed with the executor: walk_over_history, walk_over_history_never_stuck - steps "
+             "interleaved with set/delete calls, pruning on or off, under the history's run-level premise only; when every prefix is taken from the fog no step is rejected: raw_walk_never_stuck; the premise SchedOk is what earlier_versions_consistent provides along executor "
              "histories). Tie: real walks with the real cache against the model, each whole step compared with cstep, cstepD and "
              "cstepDR (retry included, cache keys compared) as one transition; a bystander walk with its own cache is judged model-free.",
         technique="Lean 4 proof (walk invariant over arbitrary schedules, well-founded measure) + correspondence check on real walks",
